@@ -5,15 +5,14 @@
        the height of band k dominates the height of each of its nodes — for every positioner;
    (2) after cycle breaking the component is acyclic (both breakers), an acyclic input is not touched;
    (3) every edge joins two different bands and points to a larger band index: proved for longest-path
-       layering; for network simplex proved for the initial feasible tree, for normalize and vbalance, and for
-       one pivot step under the stated hypotheses on the lim/low numbering — C03_ns_partial; the feasibility
-       of every network-simplex result is checked per instance by the correspondence (the model's layers equal
-       the implementation's, and the verified certificate checker cert_ok includes feasibility);
+       layering and for network simplex (C03_network_simplex_edges_point_down: spanning-tree invariant,
+       lim/low numbering, components of the tree minus an edge, pivot loop, normalize, vbalance, hbalance);
    (4) the arrow flag is the reversal flag (merge), so after un-reversal an edge runs upward exactly when it is
        flagged. *)
 From Coq Require Import List ZArith QArith.
 From Autog Require Import Graph Phase1 Phase2 Phase4 Positioners SinkColoringProofs CycleBreaking OptVbalance OptFeasible OptInit.
 From Autog Require LongestPath.
+From Autog Require NSDefs NSHbalance.
 Import ListNotations.
 
 Theorem C03_same_band_same_y : forall sp g k n, layers_wf g -> In n (l_nodes (nth k (g_L g) layer0)) ->
@@ -70,3 +69,12 @@ Theorem C03_ns_balancing_partial : forall g, vb_wf g -> feasible g -> layers_non
   feasible (vbalance g) /\ forall n, In n (g_N (vbalance g)) -> (0 <= layer_of (vbalance g) n <= vb_lmax g)%Z.
 Proof. exact vbalance_feasible. Qed.
 Print Assumptions C03_ns_balancing_partial.
+
+(* network simplex, in full (Proofs/NS*.v): whenever the layering returns, every edge spans at least its minimum
+   length, layers are non-negative, and nothing but layers and the tree bookkeeping of edges changed — for
+   vertical and for horizontal balancing (the latter is what the NetworkSimplex positioner uses) *)
+Theorem C03_network_simplex_edges_point_down : forall p g g',
+  NSDefs.ns_wf g -> acyclic g -> exec_network_simplex p g = Ok g' ->
+  feasible g' /\ layers_nonneg g' /\ NSDefs.ns_frame g g'.
+Proof. exact NSHbalance.exec_network_simplex_feasible_all. Qed.
+Print Assumptions C03_network_simplex_edges_point_down.
